@@ -4,7 +4,7 @@ import itertools
 import z3
 from .common import *  # noqa: F401,F403
 from . import specs
-from pyvc.snp import SArr, lf_equal_goal
+from pyvc.snp import SArr, lf_equal_goal, lf_equal_goals
 
 UTIL = "sigpy/util.py"
 BLOCK = "sigpy/block.py"
@@ -45,7 +45,8 @@ def _elem_post(out_shape_expected, spec_arr, tag):
         obs.append(("shape", [], z3.And(*[core._lift(a) == core._lift(b) for a, b in zip(out.shape, out_shape_expected)])))
         k = [z3.Int("k%d" % d) for d in range(len(out_shape_expected))]
         sp = spec_arr()
-        obs.append((tag, box(k, out_shape_expected), lf_equal_goal(out.elem(tuple(k)), sp.elem(tuple(k)))))
+        for sfx, g in lf_equal_goals(out.elem(tuple(k)), sp.elem(tuple(k))):
+            obs.append(("%s[%s]" % (tag, sfx), box(k, out_shape_expected), g))
         return obs
     return post
 
@@ -205,6 +206,67 @@ def job_upsample(rank, nf, with_shift, timeout_ms):
     return check_obligations(obs, timeout_ms) + covers
 
 
+# ------------------------------------------------------------------ blocks
+def _block():
+    util = load(UTIL)
+    ns = base_ns(util=util, nb=None)
+    src.load_module(BLOCK, ns, transforms=(src.loop_rewrite,))
+    return Mod(ns, BLOCK)
+
+
+def _blk_syms(D, nbatch):
+    N, B, St = ints("N", D), ints("B", D), ints("S", D)
+    bt = ints("bt", nbatch)
+    return N, B, St, bt
+
+
+def _blk_pre(N, B, St, bt):
+    for n, b, s in zip(N, B, St):
+        core.assume(core.And(b >= 1, s >= 1, n >= b))
+    for e in bt:
+        core.assume(e >= 1)
+
+
+def job_a2b(D, nbatch, timeout_ms):
+    rec = record(BLOCK, "array_to_blocks")[0]
+    blk = _block()
+
+    def run():
+        N, B, St, bt = _blk_syms(D, nbatch)
+        _blk_pre(N, B, St, bt)
+        return blk.array_to_blocks(SArr.input("x", bt + N), B, St)
+    results = explore(run)
+    inst = "D=%d,batch_axes=%d" % (D, nbatch)
+
+    def post(r):
+        N, B, St, bt = _blk_syms(D, nbatch)
+        sp = specs.spec_array_to_blocks(SArr.input("x", bt + N), B, St)
+        return _elem_post(sp.shape, lambda: sp, "window-at-each-stride-multiple")(r)
+    obs, covers = path_obligations("C09/block.array_to_blocks/%s" % inst, results, post, instance=inst, fn_record=rec)
+    return check_obligations(obs, timeout_ms) + covers
+
+
+def job_b2a(D, nbatch, timeout_ms):
+    rec = record(BLOCK, "blocks_to_array")[0]
+    blk = _block()
+
+    def run():
+        N, B, St, bt = _blk_syms(D, nbatch)
+        _blk_pre(N, B, St, bt)
+        nb = specs.num_blks(N, B, St)
+        return blk.blocks_to_array(SArr.input("x", bt + nb + B), bt + N, B, St)
+    results = explore(run)
+    inst = "D=%d,batch_axes=%d" % (D, nbatch)
+
+    def post(r):
+        N, B, St, bt = _blk_syms(D, nbatch)
+        nb = specs.num_blks(N, B, St)
+        sp = specs.spec_blocks_to_array(SArr.input("x", bt + nb + B), bt + N, B, St)
+        return _elem_post(sp.shape, lambda: sp, "overlaps-accumulate-uncovered-zero")(r)
+    obs, covers = path_obligations("C09/block.blocks_to_array/%s" % inst, results, post, instance=inst, fn_record=rec)
+    return check_obligations(obs, timeout_ms) + covers
+
+
 # ------------------------------------------------------------------ replay
 def _mi(model, name, default=2):
     v = model_int(model, name, None)
@@ -248,6 +310,16 @@ def replay_request(res):
         ns = rank if axes is None else len(axes)
         return dict(fn="util.circshift", args=dict(shape=[_mi(m, "n%d" % d) for d in range(rank)], axes=axes,
                                                     shifts=[_mi(m, "s%d" % d, 1) for d in range(ns)]))
+    if "/block." in name:
+        D, nbt = kwv("D"), kwv("nbatch")
+        B = [_mi(m, "B%d" % d, 2) for d in range(D)]
+        St = [max(1, _mi(m, "S%d" % d, 1)) for d in range(D)]
+        N = [max(_mi(m, "N%d" % d, 4), B[d]) for d in range(D)]
+        bt = [max(1, _mi(m, "bt%d" % d, 2)) for d in range(nbt)]
+        nb = [(N[d] - B[d] + St[d]) // St[d] for d in range(D)]
+        if "array_to_blocks" in name:
+            return dict(fn="block.array_to_blocks", args=dict(shape=bt + N, blk_shape=B, blk_strides=St))
+        return dict(fn="block.blocks_to_array", args=dict(shape=bt + nb + B, oshape=bt + N, blk_shape=B, blk_strides=St))
     if "/util.downsample/" in name or "/util.upsample/" in name:
         rank, nf, ws = kwv("rank"), kwv("nf"), kwv("with_shift")
         f = [_mi(m, "f%d" % d, 2) for d in range(nf)]
@@ -258,6 +330,13 @@ def replay_request(res):
         ish = [(-(-(o[d] - (sft[d] if sft else 0)) // f[d])) if d < nf else o[d] for d in range(rank)]
         return dict(fn="util.upsample", args=dict(ishape=ish, oshape=o, factors=f, shift=sft))
     return None
+
+
+def probes(tier, seed):
+    res = native("probe.py", dict(prop="C09", tier=tier, seed=seed), timeout=1500)
+    if isinstance(res, dict) and res.get("error"):
+        return [dict(name="native-probe", error=res["error"], cases=0)]
+    return res
 
 
 # ------------------------------------------------------------------ job list
@@ -283,4 +362,8 @@ def jobs(tier):
             for ws in (False, True):
                 js.append(Job(M, "job_downsample", rank=rank, nf=nf, with_shift=ws))
                 js.append(Job(M, "job_upsample", rank=rank, nf=nf, with_shift=ws))
+    for D in (1, 2, 3):
+        for nbatch in ((0, 1) if tier == "quick" else (0, 1, 2)):
+            js.append(Job(M, "job_a2b", D=D, nbatch=nbatch))
+            js.append(Job(M, "job_b2a", D=D, nbatch=nbatch))
     return js
